@@ -1518,7 +1518,12 @@ pub fn drive_heap<T: Reg + Encode + Decode>(ctx: &mut Ctx) {
 	for b in &valid {
 		inputs.push(b.clone());
 		let maxpos = b.len().min(if ctx.tier == "thorough" { 12 } else { 3 });
-		for i in 0..=maxpos {
+		// early positions, plus the middle and the end of the encoding (counts of inner collections that follow valid data)
+		let mut positions: Vec<usize> = (0..=maxpos).collect();
+		for extra in [b.len() / 2, b.len().saturating_sub(1), b.len().saturating_sub(2)] {
+			if !positions.contains(&extra) { positions.push(extra); }
+		}
+		for i in positions {
 			for (ci, c) in counts.iter().enumerate() {
 				if ctx.tier != "thorough" && (i + ci) % 2 == 1 && !(i == 0 && ci == 0) { continue }
 				let mut x = b[..i.min(b.len())].to_vec();
